@@ -49,6 +49,7 @@ type tsyncScript struct {
 	Divergent    bool     `json:"divergent"`      // the first phase thread installs a private filter (policy B) before the load
 	PriorSync    bool     `json:"prior_sync"`     // the loader first loads another policy (B) WITH thread-sync: every thread then has one filter; the load under test follows
 	Uname26      bool     `json:"uname26"`        // the child runs under the UNAME26 personality: uname(2) reports release 2.6.x
+	LogPolicy    bool     `json:"log_policy"`     // the policy under test also has a group and a default with the LOG *action* (which has nothing to do with the log flag)
 	Unpriv       bool     `json:"unprivileged"`   // the child runs as uid 65534: without no_new_privs the kernel refuses (EACCES), and a nil result is only acceptable if every thread is covered
 	OuterDenyAux bool     `json:"outer_deny_aux"` // the process runs under a filter that answers EPERM to every seccomp(2) operation other than SET_MODE_STRICT / SET_MODE_FILTER (support probes such as GET_ACTION_AVAIL fail, loads work)
 	OuterENOSYS  bool     `json:"outer_enosys"`   // the whole process already runs under a filter that answers ENOSYS to seccomp(2) (as if the kernel lacked it)
@@ -259,7 +260,11 @@ func childTSync(args []string) {
 			}
 			rep.Seam = nil
 		}
-		err := safeLoad(seccomp.Filter{NoNewPrivs: sc.NNP, Flag: symbolicFlags(sc.Flags), Policy: *kindPolicy("A")})
+		pol := kindPolicy("A")
+		if sc.LogPolicy {
+			pol = &seccomp.Policy{DefaultAction: seccomp.ActionLog, Syscalls: []seccomp.SyscallGroup{{Action: seccomp.ActionErrno, Names: []string{"getppid"}}, {Action: seccomp.ActionLog, Names: []string{"getuid"}}}}
+		}
+		err := safeLoad(seccomp.Filter{NoNewPrivs: sc.NNP, Flag: symbolicFlags(sc.Flags), Policy: *pol})
 		atomic.StoreInt32(&loaded, 1)
 		if err != nil {
 			s := err.Error()
